@@ -41,8 +41,9 @@ Proof.
   destruct a; simpl; repeat match goal with |- context [match ?x with _ => _ end] => destruct x end; reflexivity.
 Qed.
 
-Lemma has_type_none : forall t, has_type t VNone = true -> exists t', t = TOpt t'.
-Proof. destruct t; simpl; intros H; try discriminate; eauto. destruct w; discriminate. Qed.
+Definition no_ann (t : ty) : bool := match t with TAnn _ => false | _ => true end.
+Lemma has_type_none : forall t, no_ann t = true -> has_type t VNone = true -> exists t', t = TOpt t'.
+Proof. destruct t; simpl; intros Ha H; try discriminate; eauto. destruct w; discriminate. Qed.
 
 Lemma map_outcome_id : forall (f : value -> outcome) l,
   (forall x, In x l -> f x = Accept x) -> map_outcome f l = Some (Some l).
@@ -59,7 +60,7 @@ Proof. intros f l H. unfold list_outcome. rewrite map_outcome_id; auto. Qed.
 Lemma arrow_rt_plain_id : forall t v,
   wire_plain t = true -> has_type t v = true -> arrow_rt (infer t) v = Accept v.
 Proof.
-  induction t as [s bits|w| | | |names| | |u tz|u|u|p s|t IH|t IH|t IH|k IHk w IHw]; intros v Hp Ht; simpl in Hp; try discriminate.
+  induction t as [s bits|w| | | |names| | |u tz|u|u|p s|t IH|t IH|t IH|t IH|k IHk w IHw]; intros v Hp Ht; simpl in Hp; try discriminate.
   - (* TInt *) destruct v; simpl in Ht; try discriminate. simpl. rewrite Ht. reflexivity.
   - (* TFloat *) destruct w; destruct v; simpl in Ht; try discriminate; simpl.
     + apply N.eqb_eq in Ht. rewrite Ht. reflexivity.
@@ -76,6 +77,7 @@ Proof.
   - (* TDuration *) destruct v; simpl in Ht; try discriminate. simpl.
     destruct (delta_store u us) as [us'|]; try discriminate. apply Z.eqb_eq in Ht. subst. reflexivity.
   - (* TOpt *) simpl. destruct v; simpl in Ht; try (apply IH; assumption). apply arrow_rt_none.
+  - (* TAnn *) simpl. simpl in Ht. apply IH; assumption.
   - (* TList *) destruct v; simpl in Ht; try discriminate. simpl.
     apply list_outcome_id. intros x Hx. apply IH; auto. rewrite forallb_forall in Ht. auto.
 Qed.
@@ -94,8 +96,9 @@ Lemma deserialize_plain : forall (deser : list N -> option (list N)) t x,
   wire_plain t = true -> deserialize_value deser t x = Accept x.
 Proof.
   intros deser t x Hp. unfold deserialize_value.
-  destruct t; simpl in *; try discriminate; try reflexivity.
-  destruct t; simpl in *; try discriminate; reflexivity.
+  destruct t; simpl in *; try discriminate; try reflexivity;
+    destruct t; simpl in *; try discriminate; try reflexivity;
+    destruct t; simpl in *; try discriminate; reflexivity.
 Qed.
 
 (* ------------------------------------------------------------------ frozenset / dict reconstruction *)
@@ -163,9 +166,9 @@ Section Path.
 
   Definition no_opt (t : ty) : bool := match t with TOpt _ => false | _ => true end.
 
-  Lemma has_type_not_none : forall t v, no_opt t = true -> has_type t v = true -> is_none v = false.
+  Lemma has_type_not_none : forall t v, no_opt t = true -> no_ann t = true -> has_type t v = true -> is_none v = false.
   Proof.
-    intros t v Hn Ht. destruct v; try reflexivity. apply has_type_none in Ht as [t' ->]. discriminate.
+    intros t v Hn Ha Ht. destruct v; try reflexivity. apply has_type_none in Ht as [t' ->]; auto; discriminate.
   Qed.
 
   Lemma plain_not_data : forall t, wire_plain t = true -> is_data t = false.
@@ -180,15 +183,15 @@ Section Path.
          (fun x => if is_none x then Reject else deserialize_value deser t x) = Accept v.
   Proof.
     intros t v Hn Hs Ht.
-    assert (forall t0, wire_plain t0 = true -> no_opt t0 = true -> has_type t0 v = true ->
+    assert (forall t0, wire_plain t0 = true -> no_opt t0 = true -> no_ann t0 = true -> has_type t0 v = true ->
             arrow_rt (infer t0) (convert_for_arrow ser v) <> Accept VNone /\
             bind (arrow_rt (infer t0) (convert_for_arrow ser v))
                  (fun x => if is_none x then Reject else deserialize_value deser t0 x) = Accept v) as Plain.
-    { intros t0 Hp Hn0 Ht0. rewrite (plain_not_converted t0 v ser Hp Ht0).
-      rewrite (arrow_rt_plain_id t0 v Hp Ht0). pose proof (has_type_not_none t0 v Hn0 Ht0) as Hv.
+    { intros t0 Hp Hn0 Ha0 Ht0. rewrite (plain_not_converted t0 v ser Hp Ht0).
+      rewrite (arrow_rt_plain_id t0 v Hp Ht0). pose proof (has_type_not_none t0 v Hn0 Ha0 Ht0) as Hv.
       split. { intros C. inversion C. subst. discriminate. }
       simpl. rewrite Hv. apply deserialize_plain. exact Hp. }
-    destruct t as [sg bits|w| | | |names| | |u tz|u|u|p sc|t|t|t|k w]; simpl in Hs; try discriminate.
+    destruct t as [sg bits|w| | | |names| | |u tz|u|u|p sc|t|t|t|t|k w]; simpl in Hs; try discriminate.
     - (* TInt *) apply (Plain (TInt sg bits)); auto.
     - (* TFloat *) apply (Plain (TFloat w)); auto.
     - apply (Plain TStr); auto.
@@ -239,26 +242,59 @@ Section Path.
     deserialize_value deser (TOpt t') x = deserialize_value deser t' x.
   Proof. intros t' x Hn. destruct t'; try discriminate; reflexivity. Qed.
 
-  (* a value of a supported annotation is accepted by the parameter path and arrives unchanged *)
-  Lemma param_path_exact : forall t v,
-    supported t = true -> has_type t v = true -> param_path ser deser t v = Accept v.
+  Lemma supported_inner_shape : forall t, supported_inner t = true -> no_opt t = true /\ no_ann t = true.
+  Proof. destruct t; simpl; intros H; try discriminate; auto. Qed.
+
+  (* the spellings without Annotated at the top *)
+  Lemma param_path_exact0 : forall t v,
+    supported_plainly t = true -> has_type t v = true -> param_path ser deser t v = Accept v.
   Proof.
     intros t v Hs Ht. unfold param_path.
     destruct (no_opt t) eqn:Hn.
-    - assert (param_field t = ((if is_data t then ABin else infer t), false)) as ->
+    - assert (supported_inner t = true) as Hsi by (destruct t; try discriminate; exact Hs).
+      destruct (supported_inner_shape t Hsi) as [_ Ha].
+      assert (param_field t = ((if is_data t then ABin else infer t), false)) as ->
         by (destruct t; try discriminate; reflexivity).
-      assert (supported_inner t = true) as Hsi by (destruct t; try discriminate; exact Hs).
       destruct (core_exact t v Hn Hsi Ht) as [Hnn Hb].
       apply one_way_some with (t := t); auto. eapply has_type_not_none; eauto.
-    - destruct t as [sg bits|w| | | |names| | |u tz|u|u|p sc|t'|t'|t'|k w]; try discriminate. simpl in Hs.
-      assert (no_opt t' = true) as Hn' by (destruct t'; simpl in Hs; try discriminate; reflexivity).
+    - destruct t as [sg bits|w| | | |names| | |u tz|u|u|p sc|t'|t'|t'|t'|k w]; try discriminate. simpl in Hs.
+      destruct (supported_inner_shape t' Hs) as [Hn' Ha'].
       assert (param_field (TOpt t') = ((if is_data t' then ABin else infer t'), true)) as ->
-        by (unfold param_field; simpl; destruct (is_data t'); reflexivity).
+        by (unfold param_field; simpl; destruct t'; try discriminate; reflexivity).
       destruct (is_none v) eqn:Hv.
       + destruct v; try discriminate. unfold one_way. simpl. rewrite arrow_rt_none. reflexivity.
       + assert (has_type t' v = true) as Ht' by (destruct v; try discriminate; exact Ht).
         destruct (core_exact t' v Hn' Hs Ht') as [Hnn Hb].
         apply one_way_some with (t := t'); auto. intros x. apply deserialize_opt. exact Hn'.
+  Qed.
+
+  (* Annotated[X, m] and Annotated[X, m] | None travel exactly like X and X | None: Optional is stripped first,
+     the Annotated wrapper second, in the schema construction and in _deserialize_value alike *)
+  Lemma path_ann : forall t' v, no_opt t' = true -> no_ann t' = true ->
+    param_path ser deser (TAnn t') v = param_path ser deser t' v /\
+    param_path ser deser (TOpt (TAnn t')) v = param_path ser deser (TOpt t') v.
+  Proof.
+    intros t' v Hn Ha. destruct t'; try discriminate; split; reflexivity.
+  Qed.
+
+  (* a value of a supported annotation is accepted by the parameter path and arrives unchanged *)
+  Lemma param_path_exact : forall t v,
+    supported t = true -> has_type t v = true -> param_path ser deser t v = Accept v.
+  Proof.
+    intros t v Hs Ht.
+    destruct t as [sg bits|w| | | |names| | |u tz|u|u|p sc|t1|t1|t1|t1|k w];
+      try (apply param_path_exact0; [exact Hs|exact Ht]; fail).
+    - (* TOpt t1 *)
+      destruct t1 as [sg bits|w| | | |names| | |u tz|u|u|p sc|t'|t'|t'|t'|k w];
+        try (apply param_path_exact0; [exact Hs|exact Ht]; fail).
+      (* TOpt (TAnn t') *)
+      simpl in Hs. destruct (supported_inner_shape t' Hs) as [Hn Ha].
+      destruct (path_ann t' v Hn Ha) as [_ ->]. apply param_path_exact0; [exact Hs|].
+      destruct v; exact Ht.
+    - (* TAnn t' *)
+      simpl in Hs. destruct (supported_inner_shape t1 Hs) as [Hn Ha].
+      destruct (path_ann t1 v Hn Ha) as [-> _]. apply param_path_exact0; [|exact Ht].
+      destruct t1; try discriminate; exact Hs.
   Qed.
 
   Lemma result_field_fixed : forall t, result_field true t = param_field t.
@@ -280,6 +316,7 @@ Section Path.
   Proof.
     intros t Hn. unfold result_path. rewrite result_field_fixed. unfold param_path, one_way, param_field.
     destruct t; simpl in Hn; try discriminate; simpl; auto.
+    destruct (is_data t); auto.
   Qed.
 
 End Path.
